@@ -4,6 +4,9 @@
 //! state-vector synchronisation) live in ext.rs / proto.rs / docs.rs.
 //! See README.md.
 
+mod alloc;
+mod codecs;
+mod dec;
 mod docs;
 mod ext;
 mod json;
@@ -17,11 +20,16 @@ use model::{Case, MAX_UNIVERSE};
 use search::{Search, Stop};
 use std::time::{Duration, Instant};
 
+/// `System` plus the per-thread accounting the `decoders` target switches on (see alloc.rs).
+#[global_allocator]
+static ALLOCATOR: alloc::Tracking = alloc::Tracking;
+
 /// First stage of every search (see `cmd_search`).
 const SMALL_UNIVERSE: u32 = 3;
 
 const USAGE: &str = "usage:
   vx_witness search <target> [--universe N] [--seed S] [--max-seconds T] [--jobs J]
+                    [--ignore TEXT].. [--collect]   (decoders, dec_all)
   vx_witness replay '<json>' | @path";
 
 fn die(msg: &str) -> ! {
@@ -31,10 +39,18 @@ fn die(msg: &str) -> ! {
 
 fn main() {
     // panics of the code under test are caught and reported as JSON; keep stderr quiet
-    std::panic::set_hook(Box::new(|_| {}));
+    // (VX_LOUD=1 keeps the default hook: shows message and location of a panic, for debugging)
+    if std::env::var_os("VX_LOUD").is_none() {
+        std::panic::set_hook(Box::new(|_| {}));
+    }
     let args: Vec<String> = std::env::args().skip(1).collect();
     let code = match args.first().map(|s| s.as_str()) {
         Some("search") => cmd_search(&args[1..]),
+        // hidden: a worker process of `search decoders|dec_all`, one case in a process of its
+        // own, the sizes of the input families (see dec.rs)
+        Some("dec-worker") => dec::cmd_worker(&args[1..]),
+        Some("run-one") => dec::cmd_run_one(&args[1..]),
+        Some("dec-inputs") => dec::cmd_inputs(),
         Some("replay") => cmd_replay(&args[1..]),
         _ => die(USAGE),
     };
@@ -50,6 +66,7 @@ fn cmd_search(args: &[String]) -> i32 {
         .map(|n| n.get())
         .unwrap_or(1)
         .min(8);
+    let mut dec_opts = dec::Opts::default();
     let mut i = 0;
     while i < args.len() {
         let a = args[i].as_str();
@@ -73,6 +90,8 @@ fn cmd_search(args: &[String]) -> i32 {
             "--jobs" => {
                 jobs = value(a).parse().unwrap_or_else(|_| die("--jobs: not a number"));
             }
+            "--ignore" => dec_opts.ignore.push(value(a)),
+            "--collect" => dec_opts.collect = true,
             _ if a.starts_with("--") => die(&format!("unknown option {}\n{}", a, USAGE)),
             _ => {
                 if target.is_some() {
@@ -86,6 +105,7 @@ fn cmd_search(args: &[String]) -> i32 {
     let target = target.unwrap_or_else(|| die(USAGE));
     // targets outside the interval-set code (see ext.rs)
     if let Some(parts) = ext::targets_for(&target) {
+        let _ = dec::OPTS.set(dec_opts);
         let deadline = max_seconds.map(|t| Instant::now() + Duration::from_secs_f64(t.max(0.0)));
         return ext::cmd_search(&target, &parts, jobs, deadline);
     }
